@@ -964,7 +964,7 @@ def _parents(root):
     return par
 
 
-def run_r3(r, c):
+def run_r3(r, c, F=None):
     adts = {a["path"]: a for a in c.items["adts"]}
     root = CRATE + "::program::Program"
     if not r.anchor(root, adts.get(root)):
@@ -1097,6 +1097,47 @@ def run_r3(r, c):
             r.violation(key, "decode_program_from_bytes does not compare the decoded length with %s.len() and return "
                         "Err on mismatch: a package with trailing bytes is accepted" % (src or "the input"),
                         "%s:%s" % (dp["file"], dp["line"]))
+    # (2b) who-may-decode: the length-checked entry is the only place in the workspace that turns bytes into a
+    # Program.  A decode from a reader (`decode_from_std_read`, `decode_from_reader`) returns no consumed length at
+    # all: whatever trailing-data test follows can only look at the reader's current buffer, not at the file.
+    n_dec = 0
+    for crate in (F.all_crates() if F is not None else [c]):
+        for p, b in crate.hir.items():
+            for n in hirq.walk(b["body"]):
+                if n[0] != "call":
+                    continue
+                dpth = def_path(n[2]) or ""
+                # the top-level entry functions of bincode (`bincode::decode_from_*`, `bincode::serde::decode_*`), not
+                # the derive-generated per-field `Decode::decode` calls
+                # (matched by the function's own name: the public names are re-exports of `bincode::features::…`)
+                if not (dpth.startswith("bincode::") and last(dpth).startswith(("decode_from", "borrow_decode_from",
+                                                                                 "decode_borrowed_from"))):
+                    continue
+                n_dec += 1
+                key = "%s:%s" % (p, last(dpth))
+                r.instance(key, nontrivial=True, sample={"fn": p, "decoder": dpth})
+                if p == CRATE + "::serializer::decode_program_from_bytes" and last(dpth) == "decode_from_slice":
+                    continue
+                if last(dpth) == "decode_from_slice":
+                    # another slice-based entry (the executable's embedded program): it must make the same comparison
+                    # of the consumed length with the slice's length (`!=`/`==` or assert_eq! over a `.len()`)
+                    cmp_len = False
+                    for m_ in hirq.walk(b["body"]):
+                        if is_node(m_) and ((m_[0] == "bin" and m_[1] in ("Eq", "Ne")) or
+                                            (m_[0] == "macro" and "assert_eq" in m_[1]) or
+                                            (m_[0] == "match" and any(is_node(x) and x[0] == "tup" for x in [m_[1]]))):
+                            if any(is_node(x) and x[0] == "mcall" and x[3] == "len" for x in hirq.walk(m_)):
+                                cmp_len = True
+                    if cmp_len:
+                        continue
+                r.violation(key + ":decode-outside-the-length-checked-entry",
+                            "%s decodes with %s outside decode_program_from_bytes (the only entry that compares the "
+                            "consumed length with the input's length): %s — a package with trailing data can be "
+                            "accepted" % (last(p), dpth, "a reader-based decode reports no consumed length, so "
+                            "trailing bytes beyond the reader's buffer cannot be seen" if "read" in last(dpth)
+                            else "no length comparison applies to this call"),
+                            "%s:%s" % (b["file"], b["line"]))
+    r.floor("bincode decode calls in the workspace", n_dec, 1)
     # (3) who-may-panic over serializer.rs and the hand-written decoders
     scope = dict(ser)
     for (p, have, kinds) in manual:
@@ -1291,7 +1332,7 @@ def run(chk, F):
     D = F.dora()
     tabs = run_r2(r2, F, c, D)
     run_r1(r1, F, c, D, tabs)
-    run_r3(r3, c)
+    run_r3(r3, c, F)
     from rules import c18_wire
     c18_wire.run_wire(chk, F, rid="C18.R4")
     run_r5(chk, F)
